@@ -2053,3 +2053,30 @@ impl InflightBlocks {
         )
     }
 }
+
+/// verification hook: the remaining private fields of the in-flight table (read-only) and the two
+/// policy fields that only crate-internal code can set; add-only, off by default
+#[cfg(feature = "verif-hooks")]
+#[allow(clippy::type_complexity)]
+impl InflightBlocks {
+    /// (schedulers (peer, timeout_count), adjustment, protect_num, time-analyzer index, time-analyzer trace)
+    pub fn verif_dump_policy(&self) -> (Vec<(PeerIndex, usize)>, bool, usize, usize, Vec<u64>) {
+        (
+            self.download_schedulers
+                .iter()
+                .map(|(p, d)| (*p, d.timeout_count))
+                .collect(),
+            self.adjustment,
+            self.protect_num,
+            self.time_analyzer.index,
+            self.time_analyzer.trace.to_vec(),
+        )
+    }
+
+    /// what `Synchronizer::notify` (adjustment := false after IBD) and the crate's own tests
+    /// (protect_num := 0) do through the `pub(crate)` fields
+    pub fn verif_set_policy(&mut self, adjustment: bool, protect_num: usize) {
+        self.adjustment = adjustment;
+        self.protect_num = protect_num;
+    }
+}
